@@ -1500,6 +1500,14 @@ impl<'a, Octs: Octets + ?Sized> MessageTsig<'a, Octs> {
             // If it's None, then it's some other record type, and we just
             // continue.
             if let Some(record) = record {
+                // RFC 8945, section 4.2: class MUST be ANY, TTL MUST be 0.
+                // Both are part of what is signed, so a record with other
+                // values cannot have been produced by the signer.
+                if record.class() != Class::ANY || record.ttl().as_secs() != 0
+                {
+                    return Err(TsigError::Invalid);
+                }
+
                 // We got a valid TSIG, now assert that it's the last record:
                 if section.next().is_some() {
                     return Err(TsigError::Position);
